@@ -26,7 +26,9 @@ NoPoint == [x |-> -9999, y |-> -9999]
 Sub(id, name, parent, n, w, dy, dx, rows, cols, bands, mode) ==
     [id |-> id, name |-> name, parent |-> parent, n |-> n, w |-> w, dy |-> dy, dx |-> dx,
      rows |-> rows, cols |-> cols, bands |-> bands, mode |-> mode, nodes |-> <<>>]
-Lay(order, endian, text) == [order |-> order, endian |-> endian, text |-> text]
+\* layout of a file: sub-grid order, byte order, text layout, spelling of the header(s) (Grid.tla: Spellings)
+LayS(order, endian, text, sp) == [order |-> order, endian |-> endian, text |-> text, spell |-> sp]
+Lay(order, endian, text) == LayS(order, endian, text, "asc")
 Id(n) == [i \in 1..n |-> i]
 
 Grid1(id, rows, cols, dy, dx, bands) ==
@@ -61,6 +63,23 @@ SinglesOther == <<
     Single("datum", "ntv2", 2, 3, 8, 8, "le", 0), Single("datum", "ntv2", 3, 2, 8, 16, "be", 0),
     Single("datum", "ntv2", 4, 4, 8, 8, "be", 0) >>
 
+\* -- one grid whose header is spelled with exchanged bounds (Grid.tla: Spellings, Readings) ------
+\* the reader refuses it, or decodes a grid that is the file under ONE of the readings (alts in EmitSc)
+SpelledScn(kind, fmt, rows, cols, dy, dx, endian, text, sp) ==
+    Scn("spelled", kind, fmt, IF kind = "projected" THEN 1 ELSE 4096,
+        << Grid1(1, rows, cols, dy, dx, BandsOf(kind)) >>, << LayS(<<1>>, endian, text, sp) >>, << E(1) >>, "dense")
+SpelledQ == <<
+    SpelledScn("datum", "gravsoft", 3, 4, 8, 8, "le", 0, "ns"), SpelledScn("datum", "gravsoft", 2, 3, 8, 16, "le", 1, "ew"),
+    SpelledScn("datum", "gravsoft", 3, 2, 16, 8, "le", 2, "nsew"), SpelledScn("geoid", "gravsoft", 3, 3, 8, 8, "le", 3, "ns"),
+    SpelledScn("deformation", "gravsoft", 2, 3, 8, 8, "le", 0, "ew"), SpelledScn("projected", "gravsoft", 3, 4, 8, 8, "le", 1, "nsew"),
+    SpelledScn("datum", "ntv2", 3, 4, 8, 8, "le", 0, "ns"), SpelledScn("datum", "ntv2", 2, 3, 8, 16, "be", 0, "ew"),
+    SpelledScn("datum", "ntv2", 3, 2, 16, 8, "be", 0, "nsew") >>
+SpelledT == SetToSeq({SpelledScn(x[1][1], x[1][2], x[2][1], x[2][2], 8, 8, x[1][3], (x[2][1] + x[2][2]) % 4, x[3])
+                      : x \in {<<"datum", "gravsoft", "le">>, <<"geoid", "gravsoft", "le">>, <<"deformation", "gravsoft", "le">>,
+                                <<"projected", "gravsoft", "le">>, <<"datum", "ntv2", "le">>, <<"datum", "ntv2", "be">>}
+                               \X {<<2, 3>>, <<3, 2>>, <<3, 4>>} \X (Spellings \ {"asc"})})
+            \o << SpelledScn("datum", "gravsoft", 4, 3, 8, 16, "le", 1, "ns"), SpelledScn("datum", "ntv2", 4, 3, 16, 8, "le", 0, "nsew") >>
+
 \* -- overlapping grids A, B, C and lists over them ---------------------------
 LA(b) == << Sub(1, "A", "NONE", 24, 0, 8, 8, 3, 4, b, "v") >>
 LB(b) == << Sub(2, "B", "NONE", 16, 16, 8, 8, 3, 3, b, "v") >>
@@ -89,12 +108,37 @@ ListsT == Lists("datum", "gravsoft", "le", SeqsUpTo(AlphaFull, 3))
           \o Lists("projected", "gravsoft", "le", SeqsUpTo(AlphaFull, 2))
           \o Lists("datum", "ntv2", "be", SeqsUpTo(AlphaNt, 2))
 
+\* -- every grid optional and missing (Grid.tla: EmptyListClause): with and without @null, for every operator
+EmptyLists == {<<EMo>>, <<EMo, EMo>>, <<EMo, ENull>>, <<EMo, EMo, ENull>>}
+ListsEmpty == Lists("datum", "gravsoft", "le", EmptyLists) \o Lists("geoid", "gravsoft", "le", EmptyLists)
+              \o Lists("deformation", "gravsoft", "le", EmptyLists) \o Lists("projected", "gravsoft", "le", EmptyLists)
+              \o Lists("datum", "ntv2", "be", EmptyLists)
+
+\* -- grids sharing a border and a corner: D continues A eastwards (common border x = 24), E continues A
+\*    southwards (common border y = 8), the corner (24, 8) belongs to all three
+LD(b) == << Sub(2, "D", "NONE", 24, 24, 8, 8, 3, 3, b, "v") >>
+LE(b) == << Sub(3, "E", "NONE", 8, 0, 8, 8, 2, 4, b, "v") >>
+AdjScn(kind, fmt, endian, l) ==
+    Scn("adjacent", kind, fmt, IF kind = "projected" THEN 1 ELSE 4096,
+        << LA(BandsOf(kind)), LD(BandsOf(kind)), LE(BandsOf(kind)) >>, ABCLay(endian), l, "borders")
+Adj(kind, fmt, endian, LS) == SetToSeq({AdjScn(kind, fmt, endian, l) : l \in LS})
+AdjPerms == {l \in [1..3 -> {E(1), E(2), E(3)}] : \A i, j \in 1..3 : i # j => l[i] # l[j]}
+AdjQ == Adj("datum", "gravsoft", "le", AdjPerms \cup {<<E(2), E(1), ENull>>})
+        \o Adj("projected", "gravsoft", "le", {<<E(1), E(2), E(3)>>, <<E(3), E(2), E(1)>>})
+        \o Adj("datum", "ntv2", "be", {<<E(1), E(2), E(3)>>, <<E(3), E(2), E(1)>>, <<E(2), E(3), E(1)>>})
+AdjT == Adj("datum", "gravsoft", "le", AdjPerms \cup {<<E(2), E(1), ENull>>, <<E(3), E(1)>>, <<E(2), E(3)>>})
+        \o Adj("geoid", "gravsoft", "le", AdjPerms) \o Adj("deformation", "gravsoft", "le", AdjPerms)
+        \o Adj("projected", "gravsoft", "le", AdjPerms) \o Adj("datum", "ntv2", "be", AdjPerms) \o Adj("datum", "ntv2", "le", AdjPerms)
+
 \* -- NTv2 trees: root R (cell 32), children K, K2 (cell 16), grandchild G (cell 8), second root R2
 TR  == Sub(1, "R",  "NONE", 64, 0, 32, 32, 3, 3, 2, "v")
 TR2 == Sub(5, "R2", "NONE", 64, 64, 32, 32, 3, 2, 2, "v")
 TK  == Sub(2, "K",  "R",  32, 0, 16, 16, 3, 3, 2, "v")      \* shares the root's south and west border
 TK2 == Sub(3, "K2", "R",  64, 32, 16, 16, 3, 3, 2, "v")     \* shares the root's north and east border, touches K in one point
 TG  == Sub(4, "G",  "K",  16, 16, 8, 8, 3, 3, 2, "v")      \* one cell of K: shares K's east and south border
+\* a sibling of K that OVERLAPS it (x 0..32, y 16..32) and touches G along y = 16: forbidden by the NTv2
+\* specification, not by the statement; every end of a chain of containing sub-grids is admissible (Grid.tla: ChainEnds)
+TK3 == Sub(6, "K3", "R",  64, 0, 16, 16, 4, 4, 2, "v")
 \* a consistent tree: the child densifies the central cell of the root
 CR  == Sub(1, "R",  "NONE", 48, 0, 16, 16, 4, 4, 2, "root")
 CK  == Sub(2, "K",  "R",    32, 16, 8, 8, 3, 3, 2, "cons")
@@ -109,11 +153,15 @@ Trees(subs, PS, scale) ==
 TreesT == Trees(<<TR>>, Perms(1), 4096) \o Trees(<<TR, TK>>, Perms(2), 4096) \o Trees(<<TR, TK, TK2>>, Perms(3), 4096)
           \o Trees(<<TR, TK, TG>>, Perms(3), 4096) \o Trees(<<TR, TK, TK2, TG>>, Perms(4), 4096)
           \o Trees(<<TR, TR2, TK>>, Perms(3), 4096) \o Trees(<<CR, CK>>, Perms(2), 16384)
+          \o Trees(<<TR, TK, TK3>>, Perms(3), 4096) \o Trees(<<TR, TK, TK3, TG>>, Perms(4), 4096)
 \* quick: every shape, a child before its parent and after it, the grandchild first
 TreesQ == Trees(<<TR, TK>>, Perms(2), 4096)
           \o Trees(<<TR, TK, TG>>, {<<3, 2, 1>>, <<1, 2, 3>>}, 4096)
           \o Trees(<<TR, TK, TK2, TG>>, {<<4, 3, 2, 1>>, <<2, 1, 4, 3>>}, 4096)
           \o Trees(<<TR, TR2, TK>>, {<<3, 2, 1>>}, 4096) \o Trees(<<CR, CK>>, {<<2, 1>>}, 16384)
+          \* overlapping siblings in both file orders, before and after the root, with a grandchild
+          \o Trees(<<TR, TK, TK3>>, {<<1, 2, 3>>, <<1, 3, 2>>, <<3, 2, 1>>}, 4096)
+          \o Trees(<<TR, TK, TK3, TG>>, {<<1, 2, 3, 4>>, <<4, 3, 2, 1>>}, 4096)
 
 KOffQ == {-5, -3, 0, 3, 5}
 KOffT == {-5, -3, -2, -1, 0, 1, 2, 3, 5}
@@ -122,7 +170,8 @@ KInT  == {1, 4, 7}
 RC24 == (2..4) \X (2..4)
 ScenQ == << SingleL("datum", "gravsoft", 2, 3, 8, 8, "le", 1, "full") >>
          \o SinglesDatum({<<2, 2>>, <<3, 2>>, <<4, 4>>}) \o SinglesOther \o ListsQ \o TreesQ
-ScenT == SinglesDatum(RC24) \o SinglesOther \o ListsT \o TreesT
+         \o SpelledQ \o ListsEmpty \o AdjQ
+ScenT == SinglesDatum(RC24) \o SinglesOther \o ListsT \o TreesT \o SpelledT \o ListsEmpty \o AdjT
 
 \* ---- lattice --------------------------------------------------------------
 AllSubs(sc) == {<<fi, i>> : fi \in 1..Len(sc.files), i \in 1..4} \cap
@@ -267,6 +316,40 @@ ConvInv == AtScen =>
        /\ Sc.kind \in {"geoid", "projected"} => cv.el[3] = <<1, -1>>           \* heights are subtracted forward
        /\ Sc.kind = "datum" /\ Sc.fmt = "gravsoft" => Delta(Sc.kind, Sc.fmt, v, "F") = <<v.num[2], v.num[1], 0>>
 
+\* 9. every grid optional and missing: no grid is left, every point is outside all grids (fails, or passes
+\*    unchanged with @null); the catalogue holds such lists, with and without @null, for every kind / format
+EmptyListInv == AtPoint => EmptyListClause(Sc.files, Sc.list, p)
+EmptyListWitness == (AtScen /\ si = 1) =>
+    \A kf \in {<<"datum", "gravsoft">>, <<"geoid", "gravsoft">>, <<"deformation", "gravsoft">>, <<"projected", "gravsoft">>, <<"datum", "ntv2">>} :
+        \A withNull \in BOOLEAN :
+            \E i \in 1..Len(ScC) : /\ ScC[i].kind = kf[1] /\ ScC[i].fmt = kf[2]
+                                   /\ AllOptionalMissing(ScC[i].list) /\ HasNull(ScC[i].list) = withNull
+
+\* 10. a header spelled with exchanged bounds: under every reading the grid has the extent of the header,
+\*     holds exactly the node values of the file, reproduces them at its nodes, and the readings differ
+\*     from each other (so that the replay can tell which one - if any - the reader follows)
+Spelled(sc) == sc.lays[1].spell # "asc"
+ScUnder(sc, rd) == [sc EXCEPT !.files = << << Under(sc.files[1][1], rd) >> >>]
+SpellingInv == (AtScen /\ Spelled(Sc)) =>
+    LET g == Sc.files[1][1]  RD == Readings(Sc.lays[1].spell) IN
+    /\ Len(Sc.files) = 1 /\ Len(Sc.files[1]) = 1 /\ Cardinality(RD) \in {2, 4} /\ <<"swap", "swap">> \in RD
+    /\ Len(ReadingSeq(Sc.lays[1].spell)) = Cardinality(RD)
+    /\ \A rd \in RD : LET h == Under(g, rd)  f == << h >> IN
+          /\ [h EXCEPT !.nodes = <<>>] = [g EXCEPT !.nodes = <<>>]
+          /\ \A r \in 0..(h.rows - 1), c \in 0..(h.cols - 1) :
+                LET a == AtSub(f, 1, [x |-> h.w + c * h.dx, y |-> h.n - r * h.dy], 0)
+                    rr == IF rd[1] = "scan" THEN h.rows - 1 - r ELSE r
+                    cc == IF rd[2] = "scan" THEN h.cols - 1 - c ELSE c
+                IN a.ok /\ \A b \in 1..h.bands : a.num[b] = Den(h) * Node(f, 1, r, c, b) /\ Node(f, 1, r, c, b) = g.nodes[rr + 1][cc + 1][b]
+          /\ \A rd2 \in RD \ {rd} : Under(g, rd2).nodes # h.nodes
+
+\* 11. overlapping siblings: the reference's own choice is one of the admissible ends, and there are several
+SiblingInv == AtPoint =>
+    \A fi \in 1..Len(Sc.files) : LET f == Sc.files[fi] IN
+        InSiblingOverlap(f, p) => /\ Cardinality(ChainEnds(f, p)) >= 2
+                                  /\ FindGrid(f, p, 0) \in ChainEnds(f, p)
+                                  /\ \A i \in ChainEnds(f, p) : f[i].parent # "NONE"
+
 \* the catalogue itself is well formed (children inside parents, aligned)
 WellFormedInv == AtScen =>
     \A fs \in AllSubs(Sc) : LET f == Sc.files[fs[1]] g == f[fs[2]] IN
@@ -312,7 +395,14 @@ FileJson(sc, fi) ==
                  LET g == sc.files[fi][i] IN
                  [name |-> g.name, parent |-> g.parent, n |-> g.n, w |-> g.w, dy |-> g.dy, dx |-> g.dx,
                   rows |-> g.rows, cols |-> g.cols, bands |-> g.bands, nodes |-> NodesOf(sc.files[fi], i)]],
-     order |-> sc.lays[fi].order, endian |-> sc.lays[fi].endian, text |-> sc.lays[fi].text]
+     order |-> sc.lays[fi].order, endian |-> sc.lays[fi].endian, text |-> sc.lays[fi].text, spell |-> sc.lays[fi].spell]
+
+\* overlapping siblings: <<x, y, <<den, n1, n2>> per admissible sub-grid>>
+OneOf(sc) ==
+    IF sc.name # "tree" THEN {} ELSE
+    LET f == sc.files[1] IN
+    {<<q.x, q.y, SetToSeq({<<Den(f[i])>> \o AtSub(f, i, q, 0).num : i \in ChainEnds(f, q)})>>
+        : q \in {q \in PointsOf(sc) : InSiblingOverlap(f, q)}}
 
 EmitSc == AtScen =>
     PrintT(<<"SCEN", ToJson([
@@ -322,7 +412,17 @@ EmitSc == AtScen =>
                      opt |-> Sc.list[k].opt, present |-> Sc.list[k].present]],
         refused |-> IF RefusedR1(Sc.list) # RefusedR2(Sc.list) THEN 9 ELSE IF RefusedR1(Sc.list) THEN 1 ELSE 0,
         effective |-> [k \in 1..Len(EffR1(Sc.list)) |-> EffR1(Sc.list)[k].fi],
-        empty_amb |-> (EffR1(Sc.list) = <<>> /\ ~HasNull(Sc.list)),
+        all_optional_missing |-> AllOptionalMissing(Sc.list),
+        spelled |-> Spelled(Sc),
+        \* a spelled header: refused, or the grid of ONE of these readings (expectation at every point per reading)
+        alts |-> IF Spelled(Sc)
+                 THEN [k \in 1..Len(ReadingSeq(Sc.lays[1].spell)) |->
+                         LET rd == ReadingSeq(Sc.lays[1].spell)[k] IN
+                         [reading |-> rd, pts |-> {Row(ScUnder(Sc, rd), q) : q \in PointsOf(Sc)}]]
+                 ELSE <<>>,
+        oneof |-> OneOf(Sc),
+        \* operators for which only totality is required on this kind of grid
+        cross |-> IF Sc.name = "single" THEN CrossOps(Sc.kind) ELSE {},
         null |-> HasNull(Sc.list),
         conv |-> Conv(Sc.kind, Sc.fmt), dec |-> Dec(Sc.kind, Sc.fmt), unit |-> UnitFactor(Conv(Sc.kind, Sc.fmt).unit),
         deform |-> [dt |-> Duration(TRUE, 1000, 0, 0), t_epoch |-> 2000, t_obs |-> 2010, duration |-> Duration(FALSE, 0, 2000, 2010)],
